@@ -37,6 +37,11 @@ inductive FV where
   | bl (v : List Bytes)
   | wl (v : List (Nat × Bytes))   -- type-bitmap windows
   | nl (v : List Name)
+  | apl (items : List (Nat × Bool × Bytes × Nat))   -- APL: (family, negation, address octets, prefix)
+  | wks (addr : Bytes) (proto : Nat) (bitmap : Bytes)   -- WKS
+  | gw (kind : Nat) (addr : List Nat) (nm : Name) (key : Bytes)
+      -- IPSECKEY gateway / AMTRELAY relay (`util.Gateway`): `kind` 0 nothing, 1/2 the address *text* as stored,
+      -- 3 a name; then IPSECKEY's key
   deriving DecidableEq, Repr
 
 /-- prefix field kinds -/
@@ -81,6 +86,12 @@ inductive TK where
   | tsigOther              -- TSIG other data: one base64 token iff the other-length field is non-zero
   | txt                    -- TXT-like: one or more character-strings through `unescape_to_bytes`
   | optCstr                -- ISDN subaddress: at most one more string
+  | apl                    -- APL: every remaining token is `[!]family:address/prefix`
+  | wks                    -- WKS: address, protocol, then every remaining token is a port (numeric forms only: the
+                           -- mnemonics go through the host's `getprotobyname` / `getservbyname` and are not modelled)
+  | gateway (typeIdx : Nat) (algIdx : Option Nat)
+                           -- `util.Gateway.from_text(type, tok, …)` with the type read from field `typeIdx`; IPSECKEY
+                           -- (`algIdx = some i`): then `concatenate_remaining_identifiers(algorithm == 0)` → base64
   deriving DecidableEq, Repr
 
 structure Schema where
@@ -158,6 +169,38 @@ def printNames (st : Style) : List Name → Option (List Text)
     | .ok t, some r => some (t :: r)
     | _, _ => none
 
+/-- `str(APLItem)` for the address families with a text form (1, 2); for other families `__str__` formats the stored
+`bytes` with its Python repr (DESIGN D18, a known finding): not modelled, `none` -/
+def printAplItem (it : Nat × Bool × Bytes × Nat) : Option Text :=
+  let addr : Option Text := if it.1 = 1 then ip4Ntoa it.2.2.1 else if it.1 = 2 then ip6Ntoa it.2.2.1 else none
+  match addr with
+  | some t => some ((if it.2.1 then [33] else []) ++ (natToDec it.1 ++ 58 :: (t ++ 47 :: natToDec it.2.2.2)))
+  | none => none
+
+def printAplItems : List (Nat × Bool × Bytes × Nat) → Option (List Text)
+  | [] => some []
+  | it :: r => match printAplItem it, printAplItems r with
+    | some t, some ts => some (t :: ts)
+    | _, _ => none
+
+/-- the types of one window in ascending order: `for i, byte in enumerate(bitmap): for j in range(8): if byte & (0x80 >> j)` -/
+def windowTypesFrom (w : Nat) : Nat → Bytes → List Nat
+  | _, [] => []
+  | i, byte :: rest =>
+    ((List.range 8).filter fun j => byte.testBit (7 - j)).map (fun j => w * 256 + i * 8 + j) ++ windowTypesFrom w (i + 1) rest
+
+def windowTypes (w : Nat × Bytes) : List Nat := windowTypesFrom w.1 0 w.2
+
+/-- WKS `to_text`: `str(i * 8 + j)` for every set bit, most significant first -/
+def wksPorts (bm : Bytes) : List Nat := windowTypesFrom 0 0 bm
+
+/-- `util.Gateway.to_styled_text` -/
+def gatewayText (st : Style) (kind : Nat) (addr : List Nat) (nm : Name) : Option Text :=
+  if kind = 0 then some [46]
+  else if kind = 1 ∨ kind = 2 then some addr
+  else if kind = 3 then (match nameToStyled nm st.origin st.relativize with | .ok t => some t | .error _ => none)
+  else none
+
 def printTail (st : Style) : TK → Option FV → Option (List Text)
   | .none, none => some []
   | .hex, some (.b d) => some [wordbreak (hexlify d) st.hexChunk st.hexSep]
@@ -169,15 +212,18 @@ def printTail (st : Style) : TK → Option FV → Option (List Text)
     some [joinSep [32] (ss.map fun s => quote (txtElement st.txtUtf8 ConstsC05.unicodeEscaped Consts.rdataEscaped s))]
   | .optCstr, some (.b s) => some (if s = [] then [] else [quote (escapifyR s)])
   | .names, some (.nl ns) => printNames st ns
+  | .apl, some (.apl items) => printAplItems items
+  | .wks, some (.wks addr proto bm) =>
+    match ip4Ntoa addr with
+    | some a => some [a, natToDec proto, joinSep [32] ((wksPorts bm).map natToDec)]
+    | none => none
+  | .gateway _ algIdx, some (.gw kind addr nm key) =>
+    match gatewayText st kind addr nm with
+    | none => none
+    | some g => some (g :: (match algIdx with
+        | some _ => [wordbreak (b64Encode key) st.b64Chunk st.b64Sep]
+        | none => []))
   | _, _ => none
-
-/-- the types of one window in ascending order: `for i, byte in enumerate(bitmap): for j in range(8): if byte & (0x80 >> j)` -/
-def windowTypesFrom (w : Nat) : Nat → Bytes → List Nat
-  | _, [] => []
-  | i, byte :: rest =>
-    ((List.range 8).filter fun j => byte.testBit (7 - j)).map (fun j => w * 256 + i * 8 + j) ++ windowTypesFrom w (i + 1) rest
-
-def windowTypes (w : Nat × Bytes) : List Nat := windowTypesFrom w.1 0 w.2
 
 /-- `Bitmap.to_text()`: `" " + " ".join(bits)` per window -/
 def bitmapText (ws : List (Nat × Bytes)) : List Nat :=
@@ -389,6 +435,84 @@ def parseFields (env : PEnv) : List FK → List Tok → Option (List FV × List 
     | some v, some (vs, rest) => some (v :: vs, rest)
     | _, _ => none
 
+/-- `s.split(sep, 1)` unpacked into two names: `none` (ValueError) without a separator -/
+def splitFirst (c : Nat) : List Nat → Option (List Nat × List Nat)
+  | [] => none
+  | x :: xs => if x = c then some ([], xs) else (splitFirst c xs).map fun p => (x :: p.1, p.2)
+
+/-- one APL item after the optional `!`: `family:address/prefix` with Python `int()` for the numbers and the
+`APLItem.__init__` validation; families other than 1 and 2 are rejected from text (`_as_bytes` of a `str`) -/
+def parseAplBody (neg : Bool) (item : List Nat) : Option (Nat × Bool × Bytes × Nat) :=
+  match splitFirst 58 item with
+  | none => none
+  | some (fam, rest) =>
+    match pyInt 10 fam with
+    | none => none
+    | some (fneg, f) =>
+      if (fneg ∧ f ≠ 0) ∨ f > 65535 then none
+      else match splitFirst 47 rest with
+        | none => none
+        | some (addr, pfx) =>
+          match pyInt 10 pfx with
+          | none => none
+          | some (pneg, p) =>
+            if pneg ∧ p ≠ 0 then none
+            else if f = 1 then
+              (match ip4Aton addr with | some a => if p ≤ 32 then some (1, neg, a, p) else none | none => none)
+            else if f = 2 then
+              (match ip6Aton addr with | some a => if p ≤ 128 then some (2, neg, a, p) else none | none => none)
+            else none
+
+/-- `[!]family:address/prefix` -/
+def parseAplItem (t : Tok) : Option (Nat × Bool × Bytes × Nat) :=
+  match unescapeCP t.val with
+  | none => none
+  | some [] => none        -- `item[0]`: IndexError
+  | some (c :: cs) => if c = 33 then parseAplBody true cs else parseAplBody false (c :: cs)
+
+def parseApl : List Tok → Option (List (Nat × Bool × Bytes × Nat))
+  | [] => some []
+  | t :: ts => match parseAplItem t, parseApl ts with
+    | some it, some r => some (it :: r)
+    | _, _ => none
+
+/-- `bitmap[i] |= 0x80 >> (serv % 8)` after growing the bytearray to `i + 1` octets -/
+def wksSet (bm : Bytes) (serv : Nat) : Bytes :=
+  let i := serv / 8
+  let bm' := if bm.length < i + 1 then bm ++ List.replicate (i + 1 - bm.length) 0 else bm
+  bm'.set i (bm'.getD i 0 ||| (0x80 >>> (serv % 8)))
+
+/-- `dns.rdata._truncate_bitmap` -/
+def truncateBitmap (b : Bytes) : Bytes :=
+  let r := b.reverse.dropWhile (· == 0)
+  if r = [] then b.take 1 else r.reverse
+
+/-- the services of a WKS record; a token that is not `str.isdecimal()` is a service mnemonic (not modelled: `none`) -/
+def parseWksPorts : List Tok → Bytes → Option Bytes
+  | [], bm => some bm
+  | t :: ts, bm => match unescapeCP t.val with
+    | some v =>
+      if v ≠ [] ∧ v.all isDigit then (if decVal v > 65535 then none else parseWksPorts ts (wksSet bm (decVal v)))
+      else none
+    | none => none
+
+/-- WKS `from_text`: `get_string` address and protocol (`isdecimal()` → `int`), the remaining tokens are ports -/
+def parseWks : List Tok → Option (Option FV)
+  | t1 :: t2 :: rest =>
+    match asString none t1, asString none t2 with
+    | some a, some pr =>
+      match ip4Aton a with
+      | none => none
+      | some addr =>
+        if pr ≠ [] ∧ pr.all isDigit then
+          if decVal pr > 255 then none
+          else match parseWksPorts rest [] with
+            | some bm => some (some (.wks addr (decVal pr) (truncateBitmap bm)))
+            | none => none
+        else none
+    | _, _ => none
+  | _ => none
+
 def parseTxt : List Tok → Option (List Bytes)
   | [] => some []
   | t :: ts => match unescapeBytes t.val, parseTxt ts with
@@ -447,6 +571,9 @@ def parseTail (vals : List FV) : TK → List Tok → Option (Option FV)
       | some v => (bytesMax (some 255) v).map fun b => some (.b b)
       | none => none
     | _ => none
+  | .apl, toks => (parseApl toks).map fun items => some (.apl items)
+  | .wks, toks => parseWks toks
+  | .gateway _ _, _ => none   -- handled by `parseGateway` (needs the origin)
 
 def parseNames (env : PEnv) : List Tok → Option (List Name)
   | [] => some []
@@ -454,9 +581,42 @@ def parseNames (env : PEnv) : List Tok → Option (List Name)
     | some n, some r => some (n :: r)
     | _, _ => none
 
-/-- the tail parser with the `from_text` arguments (only the names tail needs them) -/
+/-- `util.Gateway.from_text(gateway_type, tok, origin, relativize, relativize_to)` + `Gateway._check`:
+types 0–2 read `tok.get_string()` (`.` / an address that `inet_aton` accepts, *stored as written*), type 3 a name -/
+def parseGatewayTok (env : PEnv) (ty : Nat) (t : Tok) : Option (List Nat × Name) :=
+  if ty ≤ 2 then
+    match asString none t with
+    | some s =>
+      if ty = 0 then (if s = [46] then some ([], []) else none)
+      else if ty = 1 then (if (ip4Aton s).isSome then some (s, []) else none)
+      else (if (ip6Aton s).isSome then some (s, []) else none)
+    | none => none
+  else if ty = 3 then (asName t env.origin env.relativize env.relTo).map fun n => ([], n)
+  else none
+
+def parseGateway (env : PEnv) (vals : List FV) (typeIdx : Nat) (algIdx : Option Nat) (toks : List Tok) : Option (Option FV) :=
+  match (vals[typeIdx]? : Option FV), toks with
+  | some (FV.n ty), t :: rest =>
+    match parseGatewayTok env ty t with
+    | none => none
+    | some (addr, nm) =>
+      match algIdx with
+      | none => if rest = [] then some (some (.gw ty addr nm [])) else none
+      | some ai =>
+        match (vals[ai]? : Option FV) with
+        | some (FV.n alg) =>
+          match concatIdents (alg == 0) rest with
+          | some s => (b64Decode s).map fun k => some (.gw ty addr nm k)
+          | none => none
+        | _ => none
+  | _, _ => none
+
+/-- the tail parser with the `from_text` arguments (only the names and gateway tails need them) -/
 def parseTailE (env : PEnv) (vals : List FV) (tk : TK) (toks : List Tok) : Option (Option FV) :=
-  if tk = .names then (parseNames env toks).map (fun ns => some (.nl ns)) else parseTail vals tk toks
+  match tk with
+  | .names => (parseNames env toks).map (fun ns => some (.nl ns))
+  | .gateway ti ai => parseGateway env vals ti ai toks
+  | tk => parseTail vals tk toks
 
 def parseRec (sch : Schema) (env : PEnv) (toks : List Tok) : Option (List FV × Option FV) :=
   match parseFields env sch.fields toks with
@@ -547,13 +707,18 @@ def schemaOf : String → Option Schema
   | "CSYNC" => some ⟨[u32, u16], .bitmap, noCheck, true⟩
   | "NSEC3" => some ⟨[u8, u8, u16, .salt, .b32hex], .bitmap, noCheck, true⟩
   | "RRSIG" | "SIG" => some ⟨[.rdtype, .algo, u8, .ttl, .sigtime, .sigtime, u16, .name], .b64 false, noCheck, true⟩
+  | "WKS" => some ⟨[], .wks, noCheck, false⟩
+  | "APL" => some ⟨[], .apl, noCheck, false⟩
+  | "IPSECKEY" => some ⟨[u8, u8, u8], .gateway 1 (some 2), noCheck, false⟩
+  | "AMTRELAY" => some ⟨[u8, .uint 1, .uint 127], .gateway 2 none, noCheck, false⟩
   | _ => none
 
 def modelledTypes : List String :=
   ["A", "AAAA", "NS", "CNAME", "PTR", "DNAME", "NSAP-PTR", "MX", "AFSDB", "RT", "KX", "LP", "PX", "SRV", "RP", "SOA",
    "TXT", "SPF", "AVC", "NINFO", "RESINFO", "WALLET", "HINFO", "X25", "ISDN", "NAPTR", "CAA", "URI", "DS", "DLV", "CDS",
    "TLSA", "SMIMEA", "SSHFP", "ZONEMD", "DNSKEY", "CDNSKEY", "DHCID", "OPENPGPKEY", "BRID", "HHIT", "L32", "NSEC3PARAM",
-   "CH-A", "EUI48", "EUI64", "NID", "L64", "NSAP", "CERT", "DSYNC", "KEY", "RRSIG", "SIG", "NSEC", "CSYNC", "NSEC3", "HIP", "TKEY", "TSIG"]
+   "CH-A", "EUI48", "EUI64", "NID", "L64", "NSAP", "CERT", "DSYNC", "KEY", "RRSIG", "SIG", "NSEC", "CSYNC", "NSEC3", "HIP", "TKEY", "TSIG",
+   "IPSECKEY", "AMTRELAY", "APL", "WKS"]
 
 /-! ## wire form of the schema fields (needed by the generic syntax of known types) -/
 
@@ -714,7 +879,7 @@ def decTail (w : Bytes) (cur : Nat) : TK → Option (Option FV)
   | .b64 _ => some (some (.b (w.drop cur)))
   | .keyB64 => some (some (.b (w.drop cur)))
   | .bitmap => (decWindows w (w.length + 1) cur none).map fun ws => some (.wl ws)
-  | .names | .b64Opt | .tsigOther => none
+  | .names | .b64Opt | .tsigOther | .gateway _ _ | .apl | .wks => none
   | .txt => match decCstrs w (w.length + 1) cur with
     | some ss => if ss = [] then none else some (some (.bl ss))
     | none => none
